@@ -13,12 +13,11 @@ macro_rules! cinst {
 
 // ---- quick tier
 cinst!(c10_range_single_page, [1, 2, 3, 4], 0x8080604000, 0x8080604000, false, false, false, false);
-cinst!(c10t_range_single_page_repeat, [1, 2, 3, 4], 0x8080604000, 0x8080604000, false, false, false, true);
 cinst!(c10_range_p1_unaligned_window, [1, 2, 3, 4], 0x8080664000, 0x80806c8000, false, false, false, false);
 cinst!(c10_range_two_p1_tables, [1, 2, 3, 4], 0x808040a000, 0x8080614000, false, false, false, false);
 cinst!(c10_range_empty, [1, 2, 3, 4], 0x8080605000, 0x8080604000, false, false, false, false);
 // ---- thorough tier
-cinst!(c10t_whole_plain, [1, 2, 3, 4], 0x0, 0xfffffffffffff000, true, false, false, true);
+cinst!(c10t_whole_plain, [1, 2, 3, 4], 0x0, 0xfffffffffffff000, true, false, false, false);
 cinst!(c10t_whole_huge3, [1, 2, 3, 4], 0x0, 0xfffffffffffff000, true, true, false, false);
 cinst!(c10t_range_full_sub5, [1, 2, 3, 4], 0x0, 0xfffffffffffff000, false, false, true, false);
 cinst!(c10t_range_p1_aligned, [1, 2, 3, 4], 0x8080600000, 0x80807ff000, false, false, false, false);
